@@ -29,6 +29,8 @@ pub fn judge(h: &History, recs: &[StepRec]) -> Result<(bool, u64), Failure> {
     let mut owed_ack = false;
     let mut crossed = false;
     let mut ambiguous_steps = 0u64;
+    let mut faulted_but_judged = 0u64;
+    let _ = &faulted_but_judged;
     let mut started = false;
     let mut steps_iter = 0usize;
     let bias_possible = h.cfg.join_bias.is_some();
@@ -71,7 +73,17 @@ pub fn judge(h: &History, recs: &[StepRec]) -> Result<(bool, u64), Failure> {
             started = true;
         }
         if r.trace.iter().any(|e| matches!(e, Ev::Fault(_))) {
-            return Ok((crossed, ambiguous_steps));
+            // a radio fault: when the transmission itself had succeeded (something else was asked of the
+            // radio or the timer between the frame and the fault) the uplink has passed without an accepted
+            // downlink like any other and the record is judged as usual; a fault at the transmission itself
+            // leaves open whether the uplink counts, and judging stops
+            let pt = r.trace.iter().position(|e| matches!(e, Ev::Tx { .. }));
+            let pf = r.trace.iter().position(|e| matches!(e, Ev::Fault(_)));
+            let after_tx = matches!((pt, pf), (Some(a), Some(b)) if b > a + 1) && r.txs.iter().any(|t| !t.join) && r.trace.iter().filter(|e| matches!(e, Ev::Fault(_))).count() == 1;
+            if !after_tx {
+                return Ok((crossed, ambiguous_steps));
+            }
+            faulted_but_judged += 1;
         }
         if expired {
             // the uplink counter space is used up: the statement is about the life of a session
@@ -227,7 +239,10 @@ pub fn history_strategy() -> impl Strategy<Value = History> {
         let reg = Reg::from_name(region.name()).unwrap();
         let slot = || prop_oneof![5 => Just(vec![]), 2 => proptest::collection::vec(c12_recipe(), 1..=1)].boxed();
         let gap = move || if class_c { prop_oneof![8 => Just(vec![]), 1 => proptest::collection::vec(c12_recipe(), 1..=1)].boxed() } else { Just(vec![]).boxed() };
-        let plan = (gap(), slot(), gap(), slot()).prop_map(|(gap1, rx1, gap2, rx2)| RxPlan { gap1, rx1, gap2, rx2, fault_at: None });
+        // one send in seven meets a radio fault after its transmission (at the k-th later radio call): the uplink has
+        // passed without an accepted downlink all the same
+        let fault = prop_oneof![6 => Just(None), 1 => (1u8..5).prop_map(Some)];
+        let plan = (gap(), slot(), gap(), slot(), fault).prop_map(|(gap1, rx1, gap2, rx2, fault_at)| RxPlan { gap1, rx1, gap2, rx2, fault_at });
         let mut sv: Vec<(u32, BoxedStrategy<Step>)> = vec![
             (6, (1u8..=200, 0u8..6, any::<bool>(), plan).prop_map(|(port, len, confirmed, rx)| Step::Send { port, len, confirmed, rx }).boxed()),
             (6, prop_oneof![3 => 20u16..70, 3 => 60u16..70, 2 => 28u16..36, 1 => 1u16..5, 1 => 95u16..100].prop_map(Step::Silence).boxed()),
